@@ -97,6 +97,55 @@ def oracle(ctx, ds, n_cfg):
     return n
 
 
+def api_part(ctx):
+    """the same comparison through mistune.markdown(), whose converters are cached by argument: random sequences of calls in a
+    fresh interpreter; any two calls of a sequence with the same document and escape flag and plugin lists L and L + ['speedup']
+    must return the same HTML"""
+    import subprocess, itertools, os, sys, json
+    docs = ["a | b\n--|--\n: def\n", "see https://example.com/page now and <b>x</b>\n", "term\n: d\n\na | b\n--|--\n1 | 2\n", "x ~~y~~ http://a.b c\n", "Intro\nName | Value\n---- | -----\na | b\n"]
+    bases = [("table", "def_list"), ("def_list", "table"), ("url", "strikethrough"), ("strikethrough", "url"), ("table", "url", "def_list"), ("def_list", "url", "table")]
+    here = os.path.dirname(os.path.dirname(os.path.abspath(__file__)))
+    n = 0
+    procs = []
+    pairs = [(("table", "def_list"), ("def_list", "table")), (("url", "strikethrough"), ("strikethrough", "url")), (("table", "url", "def_list"), ("def_list", "url", "table"))]
+    plans = []
+    for A, B in pairs:
+        for d in docs:
+            for esc in (True, False):
+                # the first call for each plugin SET fixes whatever a cache keyed too coarsely would remember
+                plans.append([[d, {"plugins": list(A), "escape": esc}], [d, {"plugins": list(B) + ["speedup"], "escape": esc}],
+                              [d, {"plugins": list(B), "escape": esc}], [d, {"plugins": list(A) + ["speedup"], "escape": esc}]])
+                # an earlier call with the same plugins in an order outside the claim (speedup first): not compared itself
+                plans.append([["warm up\n", {"plugins": ["speedup"] + list(A), "escape": esc}], [d, {"plugins": list(A) + ["speedup"], "escape": esc}], [d, {"plugins": list(A), "escape": esc}]])
+    ctx.rng.shuffle(plans)
+    for calls in plans[: (12 if ctx.quick() else len(plans))]:
+        extra = []
+        for _ in range(ctx.rng.randint(0, 4)):
+            P = list(ctx.rng.choice(bases)) + (["speedup"] if ctx.rng.random() < 0.5 else [])
+            extra.append([ctx.rng.choice(docs), {"plugins": P, "escape": ctx.rng.random() < 0.5}])
+        calls = calls + extra
+        pr = subprocess.Popen([sys.executable, "-B", os.path.join(here, "apiseq.py")], stdin=subprocess.PIPE, stdout=subprocess.PIPE, stderr=subprocess.PIPE, text=True)
+        procs.append((calls, pr, json.dumps({"src": common.repo_src(), "calls": calls})))
+    for calls, pr, payload in procs:
+        try:
+            so, _ = pr.communicate(payload, timeout=120)
+            res = json.loads(so)
+        except Exception:
+            continue
+        seen = {}
+        for (d, kw), r in zip(calls, res):
+            n += 1
+            base = tuple(p for p in kw["plugins"] if p != "speedup")
+            if kw["plugins"] and kw["plugins"][-1] == "speedup" or "speedup" not in kw["plugins"]:
+                k = (d, kw["escape"], base)
+                if k in seen and seen[k][0] != r:
+                    ctx.fail("speedup-differs:markdown()", "in one interpreter, mistune.markdown(%r, escape=%s) with plugins %r and with %r returned different HTML (calls so far: %d)" % (d, kw["escape"], seen[k][1], kw["plugins"], len(calls)),
+                             {"plugins": list(base), "hard_wrap": False, "escape": kw["escape"], "doc": d, "without": seen[k][0], "with": r, "api": "markdown()", "calls": calls})
+                    break
+                seen.setdefault(k, (r, kw["plugins"]))
+    return n
+
+
 def replay_known(ctx):
     import mistune
     for k in ctx.known:
@@ -122,6 +171,7 @@ def run(ctx):
     ctx.rng.shuffle(sweep)
     ds += sweep[: (800 if ctx.quick() else len(sweep))]
     n = oracle(ctx, ds, 8 if ctx.quick() else 60)
+    n += api_part(ctx)
     if ctx.broken and not ctx.failures:
         ctx.notes.append("search mode entered: " + "; ".join(ctx.broken)[:300])
         n += oracle(ctx, docs(ctx, 30000), 40)
